@@ -1,7 +1,7 @@
 import Props.C11
 import Props.Driver
 /-!
-# C11, second clause at run level: marking candidates withdrawn = deleting them (wigm, wigm-prf, wigm-prf-batch, cfer, cfer-batch)
+# C11, second clause at run level: marking candidates withdrawn = deleting them (wigm, wigm-prf, wigm-prf-batch, cfer, cfer-batch, scotland)
 
 For every case inside `caseOK` (the reader has already removed withdrawn candidates from the rankings: `Props/C11.lean`,
 `Props/C15.lean`), every fixed-point precision and the three wigm rule names in every configuration: the state returned for the
@@ -12,7 +12,9 @@ snapshot of the record) — same actions in the same order, same tallies, quota,
 The proof (`DroopProofs/DropW.lean`, `DropWWigm.lean`) is a commutation `dropW (f s) = f (dropW s)` for every step `f` of the
 driver: selectors are blind to withdrawn candidates, vote and pending updates keep every status, and `elect` / `defeat` are only
 addressed to ids of hopeful candidates.  The same for cfer / cfer-batch (`cfer_withdrawn_is_absent`, `DropWCfer.lean`).
-Scotland, mpls, the Meek family and QPQ: compared only (re-runs on the real code).
+Scotland (`scotland_withdrawn_is_absent`, `DropWScot.lean`): the tie-break by prior stages reads the saved stages, which the
+deletion edits too; the extra invariant is that every saved stage lists the current candidates with the same ones withdrawn,
+so the look-back never reads a withdrawn entry.  mpls, the Meek family and QPQ: compared only (re-runs on the real code).
 -/
 namespace Droop.C11
 open Droop
@@ -127,6 +129,33 @@ theorem cfer_withdrawn_is_absent (p : Nat) (c : Case) (hr : c.rule = "cfer" ∨ 
   rw [he', initState_deleteWithdrawn] at hrun'
   have hG := C01.cfer_start p _ hI (initState_fresh _ c) (initState_enough _ c hk) rfl
   exact cfer_dropW (fixedArith p) (fixed_lawful p) rfl batch _ t t' hG hrun hrun'
+
+/-- **withdrawn means absent, Scottish rule** -/
+theorem scotland_withdrawn_is_absent (p : Nat) (c : Case) (hr : c.rule = "scotland") (hok : caseOK c = true) :
+    ∃ t t', runRuleSt (fixedArith p) c = some t ∧ runRuleSt (fixedArith p) (deleteWithdrawn c) = some t'
+      ∧ t' = Droop.dropW t := by
+  have hk := caseOK_iff c hok
+  have hk' := caseOK_deleteWithdrawn c hk
+  have hok' := caseOK_bool_of _ hk'
+  obtain ⟨t, ⟨hrun, _, _⟩, _⟩ := Driver.scotland p c hr hok
+  obtain ⟨t', ⟨hrun', _, _⟩, _⟩ := Driver.scotland p (deleteWithdrawn c) hr hok'
+  refine ⟨t, t', hrun, hrun', ?_⟩
+  have hm : methodOf c.rule = .wigm := Driver.methodOf_gregory (by rw [hr]; simp)
+  have hI := initState_init (fixedArith p) (fixed_lawful p) c hm hk
+  have he : runRuleSt (fixedArith p) c = scotCount (fixedArith p) (initState (fixedArith p) c) := by
+    simp [runRuleSt, runRuleSt', hr]
+  have he' : runRuleSt (fixedArith p) (deleteWithdrawn c) = scotCount (fixedArith p) (initState (fixedArith p) (deleteWithdrawn c)) := by
+    simp [runRuleSt, runRuleSt', deleteWithdrawn, hr]
+  rw [he] at hrun
+  rw [he', initState_deleteWithdrawn] at hrun'
+  have hS := pow10_pos p
+  have hst : ScotStart (fixedArith p) (initState (fixedArith p) c) := by
+    refine ⟨hI, ?_, initState_fresh _ c, initState_enough _ c hk⟩
+    have hnn : 0 ≤ pdiv ((initState (fixedArith p) c).nballots : Int) (((initState (fixedArith p) c).seats : Int) + 1) :=
+      pdiv_nonneg _ _ (by positivity) (by positivity)
+    show 0 < (pdiv _ _ + 1) * pow10 p
+    positivity
+  exact scot_dropW (fixedArith p) (fixed_lawful p) rfl _ t t' hst rfl hrun hrun'
 
 /-- what the driver prints for the two runs differs only by the withdrawn candidates' rows -/
 theorem finish_dropW {α : Type} [CommRing α] [LinearOrder α] [IsStrictOrderedRing α] (A : Arith α) (t : St α) :
